@@ -1428,6 +1428,23 @@ func (e *enc) instr(b *ssa.BasicBlock, in ssa.Instruction) {
 			}
 		}
 		fr.returns = append(fr.returns, ri)
+		if fr.depth == 0 && fr.contract != nil && len(fr.contract.AtReturn) > 0 {
+			fr.nret++
+			for i, cl := range fr.contract.AtReturn {
+				env := e.fnEnv(fr, e.mem)
+				mem := e.mem
+				env.locals = func(name string) (tval, bool) { return e.lookupLocal(fr, nil, nil, mem, name) }
+				for j, v := range vals {
+					env.results = append(env.results, e.mkT(v, x.Results[j].Type()))
+				}
+				g, err := e.specBool(env, cl.E)
+				if err != nil {
+					e.contractError(fr, fmt.Sprintf("assert return %d: %v", i+1, err))
+					continue
+				}
+				e.oblige(fmt.Sprintf("assert-return#%d.%d", fr.nret, i+1), g, x.Pos(), cl.Text)
+			}
+		}
 		for i, r := range x.Results {
 			if l, ok := fr.loc[r]; ok {
 				if fr.retLocs == nil {
